@@ -270,7 +270,20 @@ def generate_property(
     return lines, type_name
 
 
-def generate_name(name_context: str, types: TypeData) -> str:
+def generate_name(
+    name_context: str, types: TypeData, spec: Optional[model.LSPModel] = None
+) -> str:
+    def taken(candidate: str) -> bool:
+        # A name is taken by a type generated so far, or by a type the model
+        # declares (it may not be generated yet, e.g. the owner of a literal).
+        return bool(types.get_by_name(candidate)) or (
+            spec is not None
+            and any(
+                t.name == candidate
+                for t in [*spec.structures, *spec.enumerations, *spec.typeAliases]
+            )
+        )
+
     # If name context has a '_' it is likely a property.
     # Try name generation using just the property name
     parts = [to_upper_camel_case(p) for p in name_context.split("_") if len(p) > 3]
@@ -280,22 +293,22 @@ def generate_name(name_context: str, types: TypeData) -> str:
 
     # Try the last part of the name context
     name = parts[-1]
-    if not types.get_by_name(name) and "info" in name_context.lower():
+    if not taken(name) and "info" in name_context.lower():
         return name
 
     # Combine all parts and try again
     name = "".join(parts)
-    if not types.get_by_name(name):
+    if not taken(name):
         return name
 
     # Short parts (e.g. a three letter property name) were dropped above; use them too.
     name = "".join(to_upper_camel_case(p) for p in name_context.split("_") if p)
-    if not types.get_by_name(name):
+    if not taken(name):
         return name
 
     # Another type already has that name (`Foo.barBaz` and `FooBar.baz`): number it.
     counter = 2
-    while types.get_by_name(f"{name}{counter}"):
+    while taken(f"{name}{counter}"):
         counter += 1
     return f"{name}{counter}"
 
@@ -322,7 +335,7 @@ def generate_literal_type(
     if "_" not in name_context:
         name_context = f"{name_context}_{get_context_from_literal(literal)}"
 
-    literal.name = generate_name(name_context, types)
+    literal.name = generate_name(name_context, types, spec)
 
     usings = ["DataContract"]
     inner = []
@@ -586,7 +599,7 @@ def generate_class_from_variant_literals(
     types: TypeData,
     name_context: Optional[str] = None,
 ) -> str:
-    name = generate_name(name_context, types)
+    name = generate_name(name_context, types, spec)
     if types.get_by_name(name):
         raise ValueError(f"Name {name} already exists")
 
